@@ -7,7 +7,7 @@ pub fn def() -> PropDef {
     PropDef {
         id: "C10",
         builds: BOTH,
-        rule: "(i) every one of the 1,112,064 Unicode scalar values, alone, embedded between escape sequences, inside an OSC payload and among CSI parameters; (ii) every string over {L,W,CM,E2,EM,TAB,SP,CSI,CSI2,OSB,OSS} up to length N, with every insertion of each of 4 well-formed sequences at every symbol boundary and every split for additivity; (iii) every string over raw escape pieces {L,W,ESC,[,],\\,BEL,m,;,1} up to length N for the byte-length bound; (iv) a scan of every byte 0x20..0x7F as CSI final byte / inside an OSC; non-trivial = a string containing a sequence or a character whose width differs from 1",
+        rule: "(i) every one of the 1,112,064 Unicode scalar values, alone, embedded between escape sequences, inside an OSC payload and among CSI parameters; (ii) every string over {L,W,CM,E2,EM,TAB,SP,CSI,CSI2,OSB,OSS,an OSC whose payload begins with a backslash,an OSC whose payload contains an ESC,backslash} up to length N, with every insertion of each of 4 well-formed sequences at every symbol boundary and every split for additivity; (iii) every string over raw escape pieces {L,W,ESC,[,],\\,BEL,m,;,1} up to length N for the byte-length bound; (iv) a scan of every byte 0x20..0x7F as CSI final byte / inside an OSC; non-trivial = a string containing a sequence or a character whose width differs from 1",
         assumptions: BASE_ASSUMPTIONS,
         floor: |t| t.pick(100_000, 300_000),
         run,
@@ -74,7 +74,7 @@ fn run(r: &mut Run) -> Result<(), MachineryError> {
     })?;
 
     // (ii) well-formed strings
-    let alpha = [L, W, CM, E2, EM, TAB, SP, CSI, CSI2, OSB, OSS];
+    let alpha = [L, W, CM, E2, EM, TAB, SP, CSI, CSI2, OSB, OSS, OSBS, OSCE, BSL];
     let n = t.pick(4, 6);
     let space = Space { name: "C10/wellformed-strings".into(), menu: menu(&alpha), max_len: n, desc: format!("strings of length <= {}: display_width == sum of reference widths of the visible characters; additive over every split of ESC-free strings; unchanged by inserting each of {:?} at every symbol boundary; <= byte length", n, SEQS) };
     r.space(space, |seq, cx| {
